@@ -395,7 +395,8 @@ def opAsm (j : Json) : R Json := do
   let preLines : Json := match pre with
     | .ok (es, _) => Json.arr (es.map jEmitted).toArray
     | .error _ => Json.null
-  match assemble cfg files start stop fill.toNat with
+  -- `assembleFast` = `assemble` (theorem C03.assemble_eq_fast): the image is computed line by line
+  match assembleFast cfg files start stop fill.toNat with
   | .error e => return Json.mkObj [("err", Json.str e.name), ("overlapSpec", overlapSpec), ("lines", preLines)]
   | .ok o =>
     let specImg := match stop with
@@ -419,7 +420,8 @@ def opAsmText (j : Json) : R Json := do
   let pc : PCfg := { regs := cfg.regs, mnemonics := (cfg.tbl.map (·.1)) ++ (cfg.macros.map (·.1)),
                      cstrTerm := (intD j "cstrTerm" 0).toNat, embedded := boolD j "embedded" false,
                      fileNames := files.map (·.1) }
-  match asmText cfg pc (files.map (·.2)) start stop fill.toNat with
+  -- `asmTextFast` = `asmText` (theorem asmText_eq_fast)
+  match asmTextFast cfg pc (files.map (·.2)) start stop fill.toNat with
   | .error e => return Json.mkObj [("err", Json.str e.name)]
   | .ok o => return Json.mkObj [("image", jNats o.image), ("lines", Json.arr (o.emitted.map jEmitted).toArray)]
 
